@@ -65,16 +65,18 @@ def spaces(tier, variant, seed):
                     yield (k, n, d, -1)
         # n relative to the bit length of u = k
         L = k.bit_length()
-        for n in (L - 1, L, L + 1, 2 * L):
+        for n in (L - 1, L, L + 1, 2 * L, 64 * L + 1, (1 << 16) + 1, (1 << 31) - 1, (1 << 32) + 1, (1 << 36) + 1, (1 << 48) - 1, (1 << 63) + 1, (1 << 64) - 1, 1 << 63):
             if n >= 1 and part == 0:
-                yield (k, -n, 0, 1)          # marker: u = k itself, root index n
+                yield (k, -n, 0, 1)          # marker: u = k itself, root index n (up to the largest mpir_ui)
+                if n % 2 and n > 2 * L:
+                    yield (k, -n, 0, -1)
 
     def rt_one(case, R):
         k, n, d, s = case
         set_cfg()
         if n < 0:
             n = -n
-            u = k
+            u = s * k
         else:
             u = s * (k ** n + d)
         sg = None
